@@ -29,6 +29,11 @@ type Client struct {
 	Authenticated bool
 	SessionID     string
 	Mutex         sync.Mutex
+
+	/* while the retained events are being sent to a client that just authenticated, live
+	 * events wait here (encoded) and follow them. both guarded by Mutex */
+	Replaying bool
+	Pending   [][]byte
 }
 
 type Users struct {
